@@ -832,6 +832,11 @@ def file_specs(draw, profile):
                                                min_size=1 if profile.upper_names else 0, max_size=60)),
                             'seq': draw(st.integers(0, 9999)),
                             'route': draw(st.sampled_from(['kw', 'obj']))})
+        if draw(st.integers(0, 3)) == 0:
+            # constructed with another maximum record length, which is changed on the label before anything is written
+            first = draw(st.sampled_from([8192, 16384, 256, 1000, 20]))
+            if first != spec['sul'].get('vrl', 8192):
+                spec['sul']['vrl_first'] = first
     nlf = draw(st.integers(1, profile.max_lfs))
     w = spec['write']
     rows_fixed = None
